@@ -45,8 +45,9 @@ def sid(j):
 
 
 class Codec:
-    def __init__(self, mapping):
+    def __init__(self, mapping, shift=0):
         self.mapping = mapping
+        self.shift = shift      # observations come through an intermediate wrapper adding `shift`
 
     def enc_id(self, w, agent_id):
         return [0, int(agent_id[1:])] if agent_id[0] == "s" else [1, aidx(agent_id)]
@@ -68,12 +69,12 @@ class Codec:
             sp = getattr(w.agents.get(agent_id), "observation_space", None)
             member = 1 if (sp is None or sp.contains(val)) else 0
             if sup:
-                ents = [[aidx(c), int(o)] for c, o in val.items() if c != "mask"]
+                ents = [[aidx(c), int(o) - self.shift] for c, o in val.items() if c != "mask"]
                 mask = [[aidx(c), (1 if m[0] else 0) if (type(m) is list and len(m) == 1
                                                          and type(m[0]) is bool) else -1]
                         for c, m in val["mask"].items()]
                 return [1, ents, mask, member]
-            return [2, int(val), member]
+            return [2, int(val) - self.shift, member]
         if kind == 3:
             return [3, int(val)]
         if kind == 4:
@@ -98,10 +99,11 @@ def dec_id(x):
     return sid(x[1]) if x[0] == 0 else aid(x[1])
 
 
-def build(script, mapping, nulls, dyn=False):
+def build(script, mapping, nulls, dyn=False, mid=False):
     from abmarl.sim.wrappers import SuperAgentWrapper
     inner = (wrapstub.DynWStub if dyn else wrapstub.WStub)(script, nulls)
-    w = SuperAgentWrapper(inner, super_agent_mapping={sid(j): [aid(c) for c in l]
+    below = wrapstub.shift_obs_wrapper(inner) if (mid and not dyn) else inner
+    w = SuperAgentWrapper(below, super_agent_mapping={sid(j): [aid(c) for c in l]
                                                       for j, l in enumerate(mapping)})
     return inner, w
 
@@ -165,13 +167,15 @@ def play_manager(rec, m, nsteps, seed, episodes, mapping):
 
 
 def impl(inp):
-    script, mapping, nulls, drive = inp
+    script, mapping, nulls, drive = inp[:4]
+    mid = bool(inp[4]) if len(inp) > 4 else False      # an observation-shifting wrapper in between
+    mid = mid and drive[0] != 3
     try:
-        inner, w = build(script, mapping, nulls, dyn=(drive[0] == 3))
+        inner, w = build(script, mapping, nulls, dyn=(drive[0] == 3), mid=mid)
     except AssertionError:
         return [[], [1, []]]
     cls = wrapstub.DynRecorder if drive[0] == 3 else wrapstub.Recorder
-    rec = cls(w, inner, Codec(mapping))
+    rec = cls(w, inner, Codec(mapping, wrapstub.SHIFT if mid else 0))
     if drive[0] == 0:
         play_direct(rec, drive[1])
     else:
@@ -305,6 +309,12 @@ def shuffled(rng, mapping):
 
 
 def gen(tier, rng):
+    """every case with probability 0.3 over an intermediate observation-shifting wrapper"""
+    for case in gen_plain(tier, rng):
+        yield case + [1 if rng.random() < 0.3 else 0]
+
+
+def gen_plain(tier, rng):
     quick = tier != "thorough"
     # 1. every layout of n <= 4 agents: direct sequences and the three managers
     for n in (1, 2, 3, 4):
@@ -358,6 +368,8 @@ def nontrivial(inp, out):
 def classify(inp, out):
     d = inp[3][0]
     tag = {0: "direct", 1: "allstep", 2: "turn", 3: "dyn"}[d]
+    if len(inp) > 4 and inp[4] and d != 3:
+        tag += "-over-wrapper"
     o = out if isinstance(out, str) else str(out)
     if o.startswith("(1"):
         return tag + "/init-reject"
@@ -372,6 +384,11 @@ def classify(inp, out):
 
 
 def shrink(inp):
+    for c in shrink_plain(inp[:4]):
+        yield c + inp[4:]
+
+
+def shrink_plain(inp):
     script, mapping, nulls, drive = inp
     if drive[0] == 0:
         calls = drive[1]
